@@ -593,6 +593,21 @@ def run_tlc(module, cfg, **kw):
         return r
 
 
+_scratch = []
+
+
+def scratch(name):
+    """a file under build/ that belongs to this process only (several checks / sessions may run at once) and is
+    removed when the process ends"""
+    import atexit
+    if not _scratch:
+        atexit.register(lambda: [os.path.exists(f) and os.remove(f) for f in _scratch])
+    root, ext = os.path.splitext(name)
+    fn = os.path.join(tlc.BUILD, '%s.%d%s' % (root, os.getpid(), ext))
+    _scratch.append(fn)
+    return fn
+
+
 def par(jobs):
     """run thunks concurrently (each starts its own TLC process); results in order; first exception re-raised."""
     with ThreadPoolExecutor(len(jobs)) as ex:
@@ -620,13 +635,13 @@ def judge(ctx, recs, tag, procs=4):
     """recs: list of dicts with unique 'sid' and 'kind'. Returns {sid: verdict} (parsed TLA value)."""
     if not recs:
         return {}
-    cfg = os.path.join(tlc.BUILD, 'LvsJudge.cfg')
+    cfg = scratch('LvsJudge_%s.cfg' % tag)
     tlc.write_cfg(cfg, spec=None, init='JInit', next_='JNext', constants=JUDGE_CONSTS)
     nsh = max(1, min(procs, len(recs) // 8 or 1))
     shards = [recs[i::nsh] for i in range(nsh)]
     files = []
     for k, sh in enumerate(shards):
-        fn = os.path.join(tlc.BUILD, 'lvs-%s-%s-%d.ndjson' % (tag, ctx.tier, k))
+        fn = scratch('lvs-%s-%s-%d.ndjson' % (tag, ctx.tier, k))
         with open(fn, 'w') as f:
             for r in sh:
                 f.write(json.dumps(r) + '\n')
